@@ -29,7 +29,14 @@ TV      `exchange record`: N in {8, 64} concurrent clients against a real UDP lo
         pool), a real UDP server on a wildcard socket whose clients talk to 127.0.0.1/2/3 from unconnected sockets and log
         which address each reply came from ("udpmulti"), an in-memory PacketConn server (pool) and TCP servers (in-memory and loopback); the handler snapshots the
         request, waits until later packets were received, snapshots again -> Trace_Exchange.
-        A client that got no reply (UDP loss) is logged as "lost" and is never a verdict.
+        A client that got no reply in time (UDP loss, a loaded machine) is logged as "lost" with err = "timeout" and is never a
+        verdict; an exchange that FAILS (ErrId, undecodable reply, connection ended) on a transport that loses nothing (tcp,
+        tcpreal, pc) is `exchange-failed-on-lossless-transport`.  On the stream transports every other request travels
+        compressed (seed C12-19: WriteMsg framing zeros behind a correct length).  The in-memory tcp server's
+        DecorateReader returns a reader WITH per-connection state (bufio bound to its first connection; seed C12-18: one reader
+        shared by all connections).  "tcptsig": per-connection request sequences none / badmac / none / good / badkey / ...
+        against a server with a TSIG secret; the handler's TsigStatus() must be that of the request in its hands
+        (Trace_Exchange!StatusFor; seed C12-20: the status of an earlier request on the connection).
 
         Mode "runt": frames whose body is shorter than a DNS header (0, 1, 2, 11 octets) before, between and behind real
         messages, whole / cut at every meaningful offset / octet by octet: the raw readers (Conn.Read, readTCP) deliver them
@@ -151,7 +158,7 @@ def judge(ctx, path):
     if not evs:
         ctx.notes.setdefault("skipped_transports", []).append(os.path.basename(path))   # the OS refused the sockets: no verdict
         return []
-    insts = sorted({e["c"] * 8 + e["round"] for e in evs if e["ev"] == "send"})
+    insts = sorted({e["c"] * 8 + e["round"] for e in evs if e["ev"] == "send"}) or [0]
     bufs = sorted({e.get("buf", 0) for e in evs} | {0})
     tr = ctx.tlc_trace("Trace_Exchange", path, xmx="3g", timeout=1800,
                        consts={"Clients": "{" + ", ".join(map(str, insts)) + "}", "Buffers": "{" + ", ".join(map(str, bufs)) + "}"})
@@ -198,6 +205,7 @@ def run(ctx):
                     continue
                 k += 1
                 jobs.append(lambda tr=tr, n=n, rounds=rounds, k=k: tv(ctx, binp, tr, n, rounds, k))
+        jobs.append(lambda: tv(ctx, binp, "tcptsig", 8, 8, 90))
         vp.parallel(jobs, maxpar=4)
     else:
         jobs = [
@@ -217,6 +225,8 @@ def run(ctx):
                 for n, rounds in ((8, 8), (64, 4), (32, 8)):
                     k += 1
                     jobs.append(lambda tr=tr, n=n, rounds=rounds, k=k: tv(ctx, binp, tr, n, rounds, k))
+        jobs.append(lambda: tv(ctx, binp, "tcptsig", 8, 8, 90))
+        jobs.append(lambda: tv(ctx, binp, "tcptsig", 40, 8, 91))
         vp.parallel(jobs, maxpar=8)
     ctx.assumptions += [
         "a write that fails half way ends the use of the connection (the caller gets the error); nothing is said about frames after it",
